@@ -34,6 +34,8 @@ fn main() {
         out: Box::new(std::io::BufWriter::with_capacity(1 << 20, stdout)),
         n: 0,
     };
+    // HS_SHARD=i/k splits the schedule suites over k processes; everything else runs in shard 0
+    let shard0 = std::env::var("HS_SHARD").map_or(true, |s| s.starts_with("0/"));
     match prop {
         "C01" => suites_body::c01(&mut em, thorough, seed),
         "C02" => suites_body::c02(&mut em, thorough, seed),
@@ -46,7 +48,9 @@ fn main() {
         "C09" => suites_chunk::c09(&mut em, thorough, seed),
         "C10" => suites_sched::run_suite(&mut em, thorough, seed, false, false),
         "C11" => {
-            suites_chunk::c11(&mut em, thorough, seed);
+            if shard0 {
+                suites_chunk::c11(&mut em, thorough, seed);
+            }
             suites_sched::run_suite(&mut em, thorough, seed, true, false);
             suites_sched::run_suite(&mut em, false, seed, true, true);
         }
@@ -65,8 +69,10 @@ fn main() {
         "C18" => suites_fs::c18(&mut em, thorough, seed),
         "C19" => suites_fs::c19(&mut em, thorough, seed),
         "C20" => {
-            suites_body::c20_serve(&mut em, thorough, seed);
-            suites_chunk::c20_chunk(&mut em, thorough, seed);
+            if shard0 {
+                suites_body::c20_serve(&mut em, thorough, seed);
+                suites_chunk::c20_chunk(&mut em, thorough, seed);
+            }
             suites_sched::run_suite_with(&mut em, thorough, true, false, true);
         }
         _ => {
